@@ -449,3 +449,45 @@ func VerifC13_StringListOverwrite() {
 	})
 	_ = db.Close()
 }
+
+// VerifC13_LongLists: lists longer than one byte's worth of indexes (index
+// keys are multi-byte integers: their byte order is not their numeric order)
+// round-trip in order, top level and nested.
+func VerifC13_LongLists() {
+	n := []int{255, 256, 257, 300}[verifrt.Choose("len", 4)]
+	nested := verifrt.Bool("nested")
+	list := make([]interface{}, n)
+	for i := range list {
+		list[i] = int64(i)
+	}
+	var val interface{} = list
+	if nested {
+		val = map[string]interface{}{"inner": list}
+	}
+	db := verifrt.OpenDB()
+	err := db.Update(func(tx *bbolt.Tx) error {
+		b := GetOrCreatePath(tx, "root", "e")
+		b.PutMap("m", map[string]interface{}{"v": val}, nil, true)
+		return b.GetError()
+	})
+	verifrt.Assert(err == nil, "C13 writing a long list succeeds")
+	_ = db.View(func(tx *bbolt.Tx) error {
+		got := Path(tx, "root", "e").GetMap("m")["v"]
+		if nested {
+			m, _ := got.(map[string]interface{})
+			got = m["inner"]
+		}
+		l, ok := got.([]interface{})
+		verifrt.Assert(ok && len(l) == n, "C13 a long list reads back with its length")
+		if ok && len(l) == n {
+			inOrder := true
+			for i := range l {
+				v, isInt := l[i].(int64)
+				inOrder = inOrder && isInt && v == int64(i)
+			}
+			verifrt.Assert(inOrder, "C13 a long list reads back element by element in order")
+		}
+		return nil
+	})
+	_ = db.Close()
+}
